@@ -319,6 +319,8 @@ func C09(p *core.Program, r *core.Report) {
 	// copies keep their block numbers: AddExtensionBlock assigns the lowest free
 	// number, which renumbers a bundle whose numbers are not contiguous (e.g.
 	// after an unknown block was removed); the reassembled bundle would differ.
+	checkCopiesUntouched(p, r, frag)
+	checkCopiesUntouched(p, r, p.Func(bp7, "", "ReassembleFragments"))
 	for _, fn := range []*ssa.Function{frag, p.Func(bp7, "", "ReassembleFragments")} {
 		n := len(core.CallsTo(fn, bp7+".Bundle.AddExtensionBlock"))
 		okNum := n == 0
@@ -338,8 +340,30 @@ func C09(p *core.Program, r *core.Report) {
 		})
 		r.Check(okNum && okPayloadNo, "numbering-preserved/"+fname(fn), "blocks copied into a fragment / into the reassembled bundle keep their block numbers (no AddExtensionBlock, which renumbers; the payload block takes the number of the original payload block): otherwise a bundle with non-contiguous numbers does not reassemble byte-identically", p.Pos(fn.Pos()), "", fmt.Sprintf("%d AddExtensionBlock call(s); payload number taken from the original: %v", n, okPayloadNo))
 	}
+	// every fragment owns the list of its blocks: the payload block is appended to that list afterwards, and a list
+	// shared between fragments (collected once outside the loop) with spare capacity makes later fragments overwrite
+	// the payload block of earlier ones
+	nOwn := 0
+	for _, c := range copySites {
+		st, ok := c.(*ssa.Store)
+		if !ok {
+			continue
+		}
+		var outer *core.Loop
+		for _, ll := range core.Loops(frag) {
+			if ll.Blocks[st.Block()] && (outer == nil || len(ll.Blocks) > len(outer.Blocks)) {
+				outer = ll
+			}
+		}
+		if outer == nil {
+			continue
+		}
+		nOwn++
+		fresh := freshInLoop(st.Val, outer, map[ssa.Value]bool{})
+		r.Check(fresh, fmt.Sprintf("fragments-own-blocks/%s#%d", fname(frag), nOwn), "the block list given to a fragment is built for that fragment (appended to nil / to the fragment's own list, or a fresh copy); a list computed outside the fragment loop is never stored into a fragment, because the payload block is appended to it next", p.Pos(st.Pos()), "", "the stored list is (a slice of) one computed outside the loop: fragments share its backing array and an append with spare capacity overwrites a sibling's payload block")
+	}
 	r.Min("extension block copies in Fragment", 1)
-	r.Count("extension block copies in Fragment", len(addInLoop))
+	r.Count("extension block copies in Fragment", len(addInLoop)+nOwn)
 	for _, c := range addInLoop {
 		var kinds []string
 		okSet := true
@@ -541,6 +565,7 @@ func C10(p *core.Program, r *core.Report) {
 	checkOneSortedSlice(p, r, rf, prep)
 	r.Check(okPrep, "store/"+fname(rf)+"/checks-before-merge", "payloads are merged only after prepareReassembly()==nil (sorted, no gap, total covered)", p.Pos(rf.Pos()), "", "mergeFragmentPayload reachable without a successful prepareReassembly")
 	storeSideC10(p, r)
+	checkCopiesUntouched(p, r, p.Func(bp7, "", "ReassembleFragments"))
 }
 
 // checkOneSortedSlice is shared by C09 (reassembly in any order) and C10.
@@ -873,6 +898,176 @@ func isSingletonOf(v ssa.Value, par *ssa.Parameter) bool {
 					}
 				}
 			}
+		}
+	}
+	return false
+}
+
+
+// checkCopiesUntouched: "returns the original payload and blocks". The result is put together from copies of the first
+// fragment's primary block and extension blocks plus one new payload block; a method that stores through a *Bundle
+// receiver (SetCRCType, AddExtensionBlock, sortBlocks ...) applied to the result rewrites the copied blocks as well.
+// The only things set on the result are named fields of its primary block (the fragment coordinates being cleared)
+// and the appended blocks.
+func checkCopiesUntouched(p *core.Program, r *core.Report, fn *ssa.Function) {
+	mut := mayMutateMethods(p)
+	var bad []string
+	n := 0
+	core.EachInstr(fn, func(in ssa.Instruction) {
+		c, ok := in.(ssa.CallInstruction)
+		if !ok {
+			return
+		}
+		callee := core.Callee(c)
+		if callee == nil || !mut[callee] {
+			return
+		}
+		n++
+		recv := core.CallRecv(c)
+		if recv == nil {
+			return
+		}
+		if pt, ok := recv.Type().(*types.Pointer); ok && core.TypeIs(pt.Elem(), bp7, "Bundle") {
+			bad = append(bad, p.Pos(in.Pos())+" "+shortName(core.CalleeName(c)))
+		}
+	})
+	r.Analysed["mutator_calls_in_"+fn.Name()] = n
+	r.Check(len(bad) == 0, "copies-untouched/"+fname(fn), "the blocks copied from the fragments into the result are not rewritten: no method that stores through a *Bundle receiver is applied to the result (a CRC type, number or order set bundle-wide changes the copied blocks, the result no longer equals the original)", p.Pos(fn.Pos()), "", "bundle-wide mutator(s) applied: "+strings.Join(bad, ", "))
+}
+
+
+// mayMutateMethods: mutatingMethods plus the pointer-receiver methods of bpv7 that hand an address derived from their
+// receiver to a call the analysis cannot see through (a function value, an interface method) or to a method already in
+// the set - e.g. Bundle.SetCRCType, which visits its blocks through forEachBlock(func(block)).
+func mayMutateMethods(p *core.Program) map[*ssa.Function]bool {
+	out := mutatingMethods(p)
+	derived := func(fn *ssa.Function, v ssa.Value) bool {
+		return core.DependsOn(v, func(x ssa.Value) bool { return x == ssa.Value(fn.Params[0]) })
+	}
+	changed := true
+	for changed {
+		changed = false
+		for _, fn := range p.RepoFuncs() {
+			if out[fn] || fn.Pkg == nil || !core.NameIs(fn.Pkg.Pkg.Path(), bp7) || fn.Signature.Recv() == nil || len(fn.Params) == 0 {
+				continue
+			}
+			if _, isPtr := fn.Signature.Recv().Type().(*types.Pointer); !isPtr {
+				continue
+			}
+			mut := false
+			core.EachInstr(fn, func(in ssa.Instruction) {
+				c, ok := in.(ssa.CallInstruction)
+				if !ok {
+					return
+				}
+				cc := c.Common()
+				callee := cc.StaticCallee()
+				dynamic := callee == nil
+				if !dynamic && !out[callee] {
+					return
+				}
+				if cc.IsInvoke() && derived(fn, cc.Value) {
+					mut = true
+				}
+				for _, a := range cc.Args {
+					if _, isPtrOrIface := a.Type().Underlying().(*types.Pointer); isPtrOrIface && derived(fn, a) {
+						mut = true
+					}
+					if _, isIface := a.Type().Underlying().(*types.Interface); isIface && derived(fn, a) {
+						mut = true
+					}
+				}
+			})
+			if mut {
+				out[fn] = true
+				changed = true
+			}
+		}
+	}
+	return out
+}
+
+
+// freshInLoop: the slice value v is created within loop l (per iteration), not an alias of one created outside.
+func freshInLoop(v ssa.Value, l *core.Loop, seen map[ssa.Value]bool) bool {
+	if seen[v] {
+		return true
+	}
+	seen[v] = true
+	switch x := v.(type) {
+	case *ssa.Const:
+		return x.Value == nil
+	case *ssa.MakeSlice:
+		return l.Blocks[x.Block()]
+	case *ssa.Slice:
+		return freshInLoop(x.X, l, seen)
+	case *ssa.ChangeType:
+		return freshInLoop(x.X, l, seen)
+	case *ssa.Phi:
+		if !l.Blocks[x.Block()] {
+			return false
+		}
+		for _, e := range x.Edges {
+			if !freshInLoop(e, l, seen) {
+				return false
+			}
+		}
+		return true
+	case *ssa.Call:
+		if b, ok := x.Common().Value.(*ssa.Builtin); ok && b.Name() == "append" {
+			return freshInLoop(x.Common().Args[0], l, seen)
+		}
+		return false
+	case *ssa.UnOp:
+		if x.Op != token.MUL {
+			return false
+		}
+		fa, ok := x.X.(*ssa.FieldAddr)
+		if !ok {
+			return false
+		}
+		a, ok := fa.X.(*ssa.Alloc)
+		if !ok || !l.Blocks[a.Block()] && !allocInitInLoop(a, l) {
+			return false
+		}
+		// every value stored into this field of this local, and the constructor that initialised the local
+		for _, ref := range *a.Referrers() {
+			switch y := ref.(type) {
+			case *ssa.FieldAddr:
+				if y.Field != fa.Field {
+					continue
+				}
+				for _, r2 := range *y.Referrers() {
+					if st, ok := r2.(*ssa.Store); ok && st.Addr == ssa.Value(y) && !freshInLoop(st.Val, l, seen) {
+						return false
+					}
+				}
+			case *ssa.Store:
+				if y.Addr != ssa.Value(a) {
+					continue
+				}
+				c, ok := y.Val.(*ssa.Call)
+				if !ok {
+					return false
+				}
+				n := core.CalleeName(c)
+				if !(core.NameIs(n, bp7+".MustNewBundle") || core.NameIs(n, bp7+".NewBundle")) || !freshInLoop(core.Arg(c, 1), l, seen) {
+					if ex, isEx := y.Val.(*ssa.Extract); !isEx || ex == nil {
+						return false
+					}
+				}
+			}
+		}
+		return true
+	}
+	return false
+}
+
+// allocInitInLoop: the local is (re)initialised inside the loop (its Alloc may have been hoisted to the entry block).
+func allocInitInLoop(a *ssa.Alloc, l *core.Loop) bool {
+	for _, ref := range *a.Referrers() {
+		if st, ok := ref.(*ssa.Store); ok && st.Addr == ssa.Value(a) && l.Blocks[st.Block()] {
+			return true
 		}
 	}
 	return false
